@@ -193,6 +193,11 @@ class WorldA(object):
             self.sample()
             return ev
         self.hist.add = _add
+        # invariant "Closed implies released", checked at every context switch (see closed_implies_released)
+        self.invariant_violations = []
+        self.ignore_socks = set()
+        self._obs = {"psm": None, "left_closed": False, "reported": False}
+        self.sim.observers.append(self.closed_implies_released)
         self.delivered = []       # (seq, msg) returned by get_message()
         self.consumers = []
         self.api_calls = []       # records of API calls made by harness threads
@@ -357,6 +362,39 @@ class WorldA(object):
                    tuple(sorted((t.role.split(":")[-1].split("#")[0], t.state[0]) for t in self.sim.threads if t.library and not t.group)))
             self.abstract_states.add(repr(tup))
         except Exception:       # sampling must never disturb a run
+            pass
+
+    def closed_implies_released(self):
+        """Invariant evaluated at every context switch: once a connection's state machine has left Closed and
+        reports Closed again, every socket the node created is closed and unregistered AT THAT INSTANT -- another
+        thread that sees Closed (is_closed(), get_current_state()) may rely on the release having happened.
+        A node that has not left Closed yet (a server awaiting its client, a client about to connect) is not
+        concerned.  Plain attribute reads only; the reported state is the class of current_state, exactly what
+        PeerStateMachine.get_current_state() looks at."""
+        try:
+            psm = self.node._peer_state_machine
+            ob = self._obs
+            if psm is None:
+                return
+            if psm is not ob["psm"]:
+                ob["psm"], ob["left_closed"], ob["reported"] = psm, False, False
+            name = type(psm.current_state).__name__
+            if name != "Closed":
+                ob["left_closed"] = True
+                return
+            if not ob["left_closed"] or ob["reported"]:
+                return
+            open_socks = [s for s in self.net.sockets
+                          if s.owner == "node" and not s.group and (s.state != "closed" or s.selectors)
+                          and s not in self.ignore_socks]
+            if open_socks:
+                ob["reported"] = True
+                self.invariant_violations.append({
+                    "t": self.sim.now, "step": self.sim.steps,
+                    "sockets": [(s.name, s.state, bool(s.selectors)) for s in open_socks],
+                    "switching_from": self.sim.cur.role if self.sim.cur else None})
+                self.sim.probe("closed_before_release_seen")
+        except Exception:       # an observer must never disturb a run
             pass
 
     def state(self):
